@@ -1,6 +1,8 @@
 import IcyVerif.Drv.Rip
 import IcyVerif.Drv.Bgi
 import IcyVerif.Drv.Igs
+import IcyVerif.Drv.Ripc
+import IcyVerif.Drv.Igsx
 open IcyVerif.Drv
 
 def dispatch (line : String) : String :=
@@ -8,6 +10,8 @@ def dispatch (line : String) : String :=
   | "rip" :: rest => Rip.handle rest
   | "bgi" :: rest => Bgi.handle rest
   | "igs" :: rest => Igs.handle rest
+  | "ripc" :: rest => Ripc.handle rest
+  | "igsx" :: rest => Igsx.handle rest
   | _ => "bad-op"
 
 partial def loop (h : IO.FS.Stream) (out : IO.FS.Stream) : IO Unit := do
